@@ -152,7 +152,7 @@ ResolveVerdict(e) ==
       valid == ValidTags(lst, e.P, e.today)
       ulst == IF e.uscope = "branch" THEN e.branch ELSE e.all
       ustart == IF e.ignore THEN e.cfgver ELSE ResolveCurrent(e.cfgver, ulst, e.uscope, e.P, e.today) IN
-  IF e.show = None THEN <<"resolve:show-fails", 0>>
+  IF e.show = None THEN (IF "fetch_fails" \in DOMAIN e /\ e.fetch_fails THEN Good ELSE <<"resolve:show-fails", 0>>)        \* a failing fetch may stop the run, it must not yield another start
   ELSE IF VerCmp(e.show, start) # 0 THEN <<"resolve:start-is-not-the-greatest-in-scope", start>>
   ELSE IF ~(e.show = e.cfgver \/ InList(e.show, valid)) THEN <<"resolve:start-is-not-one-of-the-candidates", start>>
   ELSE IF e.show_clean # e.show THEN <<"resolve:non-matching-tags-change-the-start", e.show_clean>>
